@@ -344,6 +344,9 @@ func main() {
 		forged := []tok{build("empty-key", "HS256", "", "", p64(3600), p64(-5), nil, now, "HDS"),
 			build("wrong-secret", "HS256", secrets[1], secrets[1], p64(3600), p64(-5), nil, now, "HDS")}
 		hs := hagallhttp.VerifyAuthToken(context.Background(), client)
+		// the phase starts from a known secret: the requests before it may have left the other one, under which the
+		// "wrong-secret" token is a valid one until the first change
+		client.SetServerData("srv", secrets[0])
 		var inside int32
 		wrapped := hagallhttp.VerifyAuthTokenHandler(client, func(w http.ResponseWriter, r *http.Request) { atomic.AddInt32(&inside, 1) })
 		stop := make(chan struct{})
